@@ -190,4 +190,22 @@ theorem debit_spec {s t : Ledger} {a amt : Nat} (hw : WF s) (h : debit s a amt =
     have := hfree a'
     omega
 
+theorem change_amount_spec_aux (s : Ledger) (initial : Nat → Option Nat) (refund a v : Nat)
+    (h : changeAmount s initial true refund a = some v) :
+    v = (initial a).getD 0 + (if a = s.base then refund else 0) := by
+  unfold changeAmount at h
+  simp only [if_true] at h
+  split at h
+  · cases h
+  · rename_i v0 hv0
+    rw [hv0]
+    split at h
+    · rename_i hb
+      unfold checkedAdd at h
+      split at h
+      · cases h
+      · cases h; simp [hb]
+    · rename_i hb
+      cases h; simp [hb]
+
 end FuelVerif.Ledger
